@@ -21,6 +21,9 @@ type genPlan struct {
 	Draws   int    `json:"draws"`   // per worker
 	SnapAt  int    `json:"snapAt"`  // snapshot after this many draws of worker 0 (0 = never); the restored generator then draws too
 	Restore int    `json:"restoreDraws"`
+	// a client takes snapshots while the workers are drawing (their content is not used); when all workers have
+	// finished, a snapshot is taken at rest, a generator restored from it draws Restore ids
+	RestSnap int `json:"restSnap,omitempty"` // number of snapshot calls racing with the draws (0 = off)
 }
 
 // IdCase: (b) generator level. Several generators alive at once, several goroutines drawing from each,
@@ -94,6 +97,7 @@ func (c *IdCase) Main() {
 	tracer := tracing.NewTracer(ctx)
 	done := make(chan struct{}, 256)
 	n := 0
+	var gens []id.IGenerator
 	for gi, gp := range c.Gens {
 		var g id.IGenerator
 		var err error
@@ -105,6 +109,22 @@ func (c *IdCase) Main() {
 			}
 		} else {
 			g = id.NewFallbackGenerator()
+		}
+		gens = append(gens, g)
+		if gp.RestSnap > 0 {
+			n++
+			gp, g := gp, g
+			go func() {
+				defer func() { done <- struct{}{} }()
+				for k := 0; k < gp.RestSnap; k++ {
+					c.env.fault("snapshot-while-others-draw")
+					if _, err := g.Snapshot(); err != nil {
+						L.Add("fatal", "snapshot: "+err.Error(), "", 0)
+						return
+					}
+					simrt.Yield("between-snapshots")
+				}
+			}()
 		}
 		for w := 0; w < gp.Workers; w++ {
 			slot := c.slot(fmt.Sprintf("gen%d(%s)/worker%d", gi, gp.Kind, w))
@@ -149,6 +169,27 @@ func (c *IdCase) Main() {
 		case <-time.After(watchdog):
 			L.Add("stuck", "drawing goroutines", "", n-i)
 			i = n
+		}
+	}
+	// everything is at rest: what a snapshot holds now covers every id issued so far
+	for gi, gp := range c.Gens {
+		if gp.RestSnap == 0 || gi >= len(gens) {
+			continue
+		}
+		snap, err := gens[gi].Snapshot()
+		if err != nil {
+			L.Add("fatal", "snapshot: "+err.Error(), "", 0)
+			continue
+		}
+		c.env.fault("snapshot-restore")
+		rg, err := id.GetSno().RestoreIdGenerator(ctx, snap, tracer)
+		if err != nil {
+			L.Add("fatal", "restore: "+err.Error(), "", 0)
+			continue
+		}
+		rslot := c.slot(fmt.Sprintf("gen%d restored from a snapshot taken at rest (after %d snapshot calls that raced the draws)", gi, gp.RestSnap))
+		for j := 0; j < gp.Restore; j++ {
+			c.put(rslot, rg.New().String())
 		}
 	}
 	L.Add("end", "", "", 0)
@@ -245,6 +286,9 @@ func genC20(d *Draw) Case {
 			gp.SnapAt = 1 + d.N(gp.Draws)
 			gp.Restore = 1 + d.N(60)
 			gp.Workers = 1 // "the generator's earlier output" must be well defined: nobody keeps drawing from the original
+		} else if gp.Kind == "sno" && d.N(4) == 3 {
+			gp.RestSnap = 1 + d.N(4)
+			gp.Restore = 1 + d.N(60)
 		}
 		c.Gens = append(c.Gens, gp)
 	}
@@ -342,13 +386,14 @@ func checkC20(cc Case, r *simrt.Result) *Outcome {
 	probe(o, "instances-following-each-other-in-one-engine", c.Seq > 0)
 	probe(o, "two-fallback-generators-same-instant", kinds["fallback"] > 1)
 	probe(o, "snapshot-restore", c.env.FaultCounts()["snapshot-restore"] > 0)
+	probe(o, "snapshot-at-rest-after-snapshots-that-raced-the-draws", c.env.FaultCounts()["snapshot-while-others-draw"] > 0)
 	probe(o, "sequence-overflow-volume", total > 65535)
 	o.Sample = map[string]any{"generators": c.Gens, "ids_drawn": total}
 	return o
 }
 
 func init() {
-	Props["C20"] = &Scenario{Gen: genC20, Check: checkC20, MaxSteps: 400000, Once: manyFallbackGenerators}
+	Props["C20"] = &Scenario{Gen: genC20, Check: checkC20, MaxSteps: 4000000, Once: manyFallbackGenerators} // (the step cap is a safety net: the largest cases take about 300 000 steps)
 }
 
 // manyFallbackGenerators rides along once per check, without schedule: a program that creates a great many
